@@ -226,13 +226,20 @@ def hasKey : List MAnn → Bool
   | .key :: _ => true
   | _ :: r => hasKey r
 
-/-- rust.rs:640-737: the attributes are written ONCE, before the first declarator; every declarator gets the
-    `Option<..>` wrapper when @optional is present -/
-def mapDecls (depth : Nat) (ty : TypeSpec) (isOpt : Bool) : List FAttr → List Declr → List RustField
+/-- rust.rs:640-737 with fixes/D-gen-15.patch: the attributes of the member are written before EVERY declarator; every
+    declarator gets the `Option<..>` wrapper when @optional is present -/
+def mapDecls (depth : Nat) (ty : TypeSpec) (isOpt : Bool) (attrs : List FAttr) : List Declr → List RustField
+  | [] => []
+  | d :: r =>
+    let t := wrapArray (mapType depth ty) d.dims
+    { name := d.name, attrs := attrs, ty := if isOpt then .opt t else t } :: mapDecls depth ty isOpt attrs r
+
+/-- AS IT WAS before fix D-gen-15: the attributes were written ONCE, before the first declarator -/
+def mapDeclsOld (depth : Nat) (ty : TypeSpec) (isOpt : Bool) : List FAttr → List Declr → List RustField
   | _, [] => []
   | attrs, d :: r =>
     let t := wrapArray (mapType depth ty) d.dims
-    { name := d.name, attrs := attrs, ty := if isOpt then .opt t else t } :: mapDecls depth ty isOpt [] r
+    { name := d.name, attrs := attrs, ty := if isOpt then .opt t else t } :: mapDeclsOld depth ty isOpt [] r
 
 def mapMember (depth : Nat) (m : Member) : List RustField :=
   mapDecls depth m.ty (hasOptional m.anns) (m.anns.filterMap mannAttr) m.decls
@@ -241,7 +248,17 @@ def mapMembers (depth : Nat) : List Member → List RustField
   | [] => []
   | m :: r => mapMember depth m ++ mapMembers depth r
 
+/-- rust.rs:341-352 with fixes/D-gen-16.patch: the shortcuts and the long spelling `@extensibility(FINAL|APPENDABLE|MUTABLE)`
+    (the argument is compared case-insensitively; the test generator writes it in upper case) -/
 def sannExt : SAnn → Option SAttr
+  | .ext e => some (.ext e)
+  | .other "extensibility:FINAL" => some (.ext .final)
+  | .other "extensibility:APPENDABLE" => some (.ext .appendable)
+  | .other "extensibility:MUTABLE" => some (.ext .mutable)
+  | .other _ => none
+
+/-- AS IT WAS before fix D-gen-16: only the shortcut annotations were recognised -/
+def sannExtOld : SAnn → Option SAttr
   | .ext e => some (.ext e)
   | .other _ => none
 
@@ -381,8 +398,31 @@ def resolve (cur : List String) (env : Env) : RustTy → Option Ty
     else if supers > cur.length then none
     else lookupPath (cur.take (cur.length - supers) ++ segs) env
 
-/-- attributes.rs:40-44: `field.attrs.iter().find(|attr| attr.path().is_ident("dust_dds"))` — the FIRST attribute only -/
+def attrKey : List FAttr → Bool
+  | [] => false
+  | .key :: _ => true
+  | _ :: r => attrKey r
+
+def attrOptional : List FAttr → Bool
+  | [] => false
+  | .optional :: _ => true
+  | _ :: r => attrOptional r
+
+/-- every attribute is parsed in order and assigns `id = Some(..)`: the LAST `id` wins -/
+def attrId : List FAttr → Option Nat
+  | [] => none
+  | .id n :: r => match attrId r with
+    | some m => some m
+    | none => some n
+  | _ :: r => attrId r
+
+/-- attributes.rs:40-44 with fixes/D-gen-14.patch: EVERY `#[dust_dds(..)]` attribute of the field is parsed -/
 def fieldAttr (f : RustField) : FieldAttr :=
+  { name := f.name, key := attrKey f.attrs, id := attrId f.attrs, optional := attrOptional f.attrs,
+    nonSerialized := false, hashid := false }
+
+/-- AS IT WAS before fix D-gen-14: `field.attrs.iter().find(|attr| attr.path().is_ident("dust_dds"))` — the FIRST attribute only -/
+def fieldAttrOld (f : RustField) : FieldAttr :=
   { name := f.name,
     key := f.attrs.head? == some .key,
     id := match f.attrs.head? with
@@ -391,8 +431,26 @@ def fieldAttr (f : RustField) : FieldAttr :=
     optional := f.attrs.head? == some .optional,
     nonSerialized := false, hashid := false }
 
-/-- attributes.rs:122-126: likewise only the first `#[dust_dds(..)]` of the struct -/
+def lastName : List SAttr → Option String
+  | [] => none
+  | .name n :: r => match lastName r with
+    | some m => some m
+    | none => some n
+  | _ :: r => lastName r
+
+def lastExt : List SAttr → Option Ext
+  | [] => none
+  | .ext e :: r => match lastExt r with
+    | some x => some x
+    | none => some e
+  | _ :: r => lastExt r
+
+/-- attributes.rs:122-126 with fixes/D-gen-14.patch: every `#[dust_dds(..)]` of the struct is parsed, later ones overwrite -/
 def structHdr (s : RustStruct) : StructHdr :=
+  { ident := s.name, rename := lastName s.attrs, ext := (lastExt s.attrs).getD .final, nested := false, tuple := false }
+
+/-- AS IT WAS before fix D-gen-14: only the first `#[dust_dds(..)]` of the struct -/
+def structHdrOld (s : RustStruct) : StructHdr :=
   { ident := s.name,
     rename := match s.attrs.head? with
       | some (.name n) => some n
@@ -435,9 +493,19 @@ def elabStruct (cur : List String) (env : Env) (s : RustStruct) : Option Ty :=
     if supported t && fieldsCompile fs then some t else none
   | none => none
 
+/-- enums: `#[dust_dds(name = "..")]` and, with fixes/D-gen-24.patch, `#[dust_dds(bit_bound = "N")]`, which the derive accepts
+    for N = 8, 16, 32 (attributes.rs:197-215; anything else is "Invalid bit_bound specified") -/
 def elabEnum (e : RustEnum) : Option Ty :=
+  let bits := e.bitBoundAttr.getD 32
+  if bits == 8 || bits == 16 || bits == 32 then
+    let t := Ty.enum { ident := e.name, rename := e.nameAttr, nested := false, bits := bits, variants := e.variants, dflt := 0 }
+    if supported t then some t else none
+  else none
+
+/-- AS IT WAS before fix D-gen-24: `#[dust_dds(bit_bound( N))]` was written, which the derive's attribute parser rejects -/
+def elabEnumOld (e : RustEnum) : Option Ty :=
   match e.bitBoundAttr with
-  | some _ => none            -- `#[dust_dds(bit_bound( N))]`: "expected `=`" from the derive's attribute parser
+  | some _ => none
   | none =>
     let t := Ty.enum { ident := e.name, rename := e.nameAttr, nested := false, bits := 32, variants := e.variants, dflt := 0 }
     if supported t then some t else none
@@ -453,10 +521,18 @@ where
     | [] => true
     | x :: r => !r.contains x && nodupStr r
 
-/-- constants: the text is copied; it compiles for numeric and string literals of the right type (only those are generated) -/
+/-- constants: the text is copied — with fixes/D-gen-28.patch `TRUE` / `FALSE` become `true` / `false` —; it compiles for
+    numeric, boolean and string literals of the right type (only those are generated) -/
 def constCompiles (t : RustTy) : Bool :=
   match t with
-  | .prim .bool => false        -- `TRUE` / `FALSE` are not Rust
+  | .prim _ => true
+  | .path 0 false ["&str"] => true
+  | _ => false
+
+/-- AS IT WAS before fix D-gen-28: `TRUE` / `FALSE` were copied and are not Rust -/
+def constCompilesOld (t : RustTy) : Bool :=
+  match t with
+  | .prim .bool => false
   | .prim _ => true
   | .path 0 false ["&str"] => true
   | _ => false
@@ -546,10 +622,29 @@ def declaredAttr (m : Member) (d : Declr) : FieldAttr :=
   { name := d.name, key := hasKey m.anns, id := firstId m.anns, optional := hasOptional m.anns,
     nonSerialized := false, hashid := false }
 
+/-- IDL 4.2 8.3.1 / XTypes 7.3.1.2.1.8: the extensibility a type annotation declares -/
+def annDeclaresExt : SAnn → Option Ext
+  | .ext e => some e
+  | .other "extensibility:FINAL" => some .final
+  | .other "extensibility:APPENDABLE" => some .appendable
+  | .other "extensibility:MUTABLE" => some .mutable
+  | .other _ => none
+
+/-- the declared extensibility: the first such annotation (two of them are an IDL error), dust_dds's default `final` -/
 def declaredExt : List SAnn → Ext
   | [] => .final
-  | .ext e :: _ => e
-  | _ :: r => declaredExt r
+  | a :: r => match annDeclaresExt a with
+    | some e => e
+    | none => declaredExt r
+
+def idCount : List MAnn → Nat
+  | [] => 0
+  | .id _ :: r => idCount r + 1
+  | _ :: r => idCount r
+
+def extCount : List SAnn → Nat
+  | [] => 0
+  | a :: r => (match annDeclaresExt a with | some _ => 1 | none => 0) + extCount r
 
 mutual
 /-- (qualified path, definition) of every struct of a specification, modules recursively -/
